@@ -269,6 +269,7 @@ def run_coq_shards(workdir: str, name: str, header: str, case_terms, case_type: 
             f.write("\n  ; ".join(chunk))
             f.write(" ].\n")
             f.write(f"Eval vm_compute in ({eval_expr}).\n")
+            f.write(f"Eval vm_compute in (List.length ({eval_expr})).\n")
         files.append((si, path))
     outs = []
     from concurrent.futures import ThreadPoolExecutor
@@ -276,11 +277,19 @@ def run_coq_shards(workdir: str, name: str, header: str, case_terms, case_type: 
         for (si, path), (rc, out) in zip(files, ex.map(lambda sp: run_coqc(sp[1], timeout), files)):
             if rc != 0:
                 raise RuntimeError(f"coqc failed on {path}:\n{out[-3000:]}")
+            # self-check of the output parser: the number of (index, code) pairs must equal the printed length
+            m = re.search(r"=\s*(\d+)\s*:\s*nat\s*$", out.strip())
+            if m:
+                body = out.strip()[:m.start()]
+                if len(PAIR_RE.findall(body)) != int(m.group(1)):
+                    raise RuntimeError(f"verdict output of {path} not understood: {int(m.group(1))} non-zero verdicts "
+                                       f"announced, {len(PAIR_RE.findall(body))} parsed")
+                out = body
             outs.append((si, out))
     return outs
 
 
-PAIR_RE = re.compile(r"\((\d+),\s*(\d+)\)")
+PAIR_RE = re.compile(r"\(\s*(\d+)\s*,\s*(\d+)\s*\)")
 
 
 def parse_bad(outs):
